@@ -67,6 +67,15 @@ pub fn annot_grammars(tier: Tier) -> Vec<String> {
         for c in crate::props::scanner::multi_state_cfgs_pub(lalr) {
             out.push(c.to_par());
         }
+        // skip lists whose terminals have the lowest / highest numbers: the skipped non-terminal's production
+        // comes first (its terminal is number 5) or last; one and two skipped terminals; also in a second state
+        for (skips, first) in [("H", true), ("H", false), ("H, G", true), ("H, G", false)] {
+            let hg = "H: '#';\nG: '!';\n";
+            let body = "S: 'a' { 'b' } [ X ];\nX: <Y>'c';\n";
+            let prods = if first { format!("{hg}{body}") } else { format!("{body}{hg}") };
+            out.push(format!("%start S\n{gt}%skip {skips}\n%on H %enter Y\n%scanner Y {{\n  %skip {skips}\n  %on H %enter INITIAL\n}}\n%%\n{prods}").replace("H: '#'", "H: <INITIAL, Y>'#'").replace("G: '!'", "G: <INITIAL, Y>'!'"));
+            out.push(format!("%start S\n{gt}%skip {skips}\n%%\n{}", prods.replace("[ X ]", "").replace("X: <Y>'c';\n", "")));
+        }
         for body in ["S: 'a' { 'b' };", "S: A { A }; A: 'a' | 'b' 'a';", "S: \"a\" 'a' { 'b' };"] {
             out.push(format!("%start S\n{gt}%line_comment '#'\n%skip CStart\n%on CStart %push Cmt\n%scanner Cmt {{\n  %auto_newline_off\n  %auto_ws_off\n  %skip CText, CEnd\n  %on CEnd %pop\n}}\n%%\n{body}\nCStart: '<';\nCEnd: <Cmt>'>';\nCText: <Cmt>/[^>]+/;\n"));
             out.push(format!("%start S\n{gt}%on Q %enter Str\n%scanner Str {{\n  %auto_ws_off\n  %on Q %enter INITIAL\n}}\n%%\n{body}\nQ: <INITIAL, Str>'\"';\nC: <Str>/[^\"]+/;\nX: Q C Q;\n").replace("S: ", "S0: X S; S: "));
